@@ -38,7 +38,7 @@ contract("BloomFilter.check_alt", contexts=["BloomFilter"], properties=["C01", "
 # ---- sizing and construction (C07; needed by union/intersection and the loaders) ---------------------
 contract("BloomFilter._get_optimized_params", kind="classmethod",
          contexts=["BloomFilter", "BloomFilterOnDisk", "CountingBloomFilter"],
-         properties=["C07", "C01", "C12", "C13"],
+         properties=["C07", "C01", "C12", "C13", "C06", "C05"],
          params={"estimated_elements": "int", "false_positive_rate": "float"}, returns="tuple[float,int,int]",
          reveal=["bloom_m", "bloom_k"],
          requires=[("rate_representable", "false_positive_rate < 0.0 or f32(false_positive_rate) > 0.0")],
